@@ -13,6 +13,14 @@ CHECKS = {
    text="long-poll part: the harness is the client of ConfigCmd::LISTENER on a stand-alone ConfigActor; ALL message orders of small scenarios (<=3 listeners, <=3 keys, <=4 changes of 6 kinds) are enumerated, larger ones sampled, a real-time family runs on the actor's own 500 ms tick; gRPC part: real binary + real bi-stream connections (vh grpc-client) subscribing / un-listening / disconnecting while configs are published and removed over HTTP and gRPC; offline oracle: every differing md5 answered immediately, every content-changing publish / remove of a listened key reaches every pending listener / connected subscriber (2 s), time-outs within deadline + tick + slack",
    note="spurious notifications allowed; late answers re-run 3x solo before they count; HTTP long-poll endpoint and cluster not exercised",
    technique="runtime monitoring with exhaustive message-order enumeration (small scenarios) + black-box monitoring of real connections"),
+ "C11": dict(level="exploration", design="DESIGN.md 3/C11",
+   text="invariant-at-a-hook monitor on a stand-alone NamingActor: seeded histories over every registration origin (HTTP, gRPC, cluster sync, raft), all 32 InstanceUpdateTag combinations, flips, deletes with matching/foreign/empty client ids, client removal, snapshots, range refresh, sniffing, service update/removal, real time-outs (own 2 s timer, 3 s/4 s) and the 30 s empty-service clean-up; after EVERY operation one observation = VerifNamingProbe (hook) + ~25 public queries: counters == lengths, persistent set == non-ephemeral, namespace index lists each service once, client reverse map consistent, no service dropped with instances; paged walks of the final state",
+   note="observations on timed rigs are repeated when the actor's timer ran in between; uses the verif_hooks probe for the crate-private mirrors",
+   technique="runtime invariant monitoring at message boundaries (hooked state probe + public queries)"),
+ "C12": dict(level="exploration", design="DESIGN.md 3/C12",
+   text="history + reference model: (1) stand-alone NamingActor receiving exactly the messages the gRPC / open-api / console handlers and RemoveClient build, from three connection ids and HTTP writers on overlapping keys; every query API x healthy-only x protection thresholds compared with a model of the documented rules (both outcomes accepted where the rules leave a choice); (2) real binary with real gRPC connections (one vh grpc-client process each) and HTTP clients, connections ended politely / by reset / by SIGKILL in all orders; own ephemeral instances gone within 5 s, nothing else disappears",
+   note="raft round trip of persistent instances reproduced by the harness in part 1 and driven for real in part 2; time-out expiry is C13's",
+   technique="runtime monitoring of recorded histories against a reference model + black-box monitoring of real connections"),
  "C13": dict(level="exploration", design="DESIGN.md 3/C13",
    text="timeline monitor on real wall-clock time: ~400 instance timelines per run (register, heartbeat periods 0.5-2.4 s, silence, resume around the time-outs, replace, ephemeral<->persistent flips, HTTP<->gRPC owner switches, take-over from a failed node) against a stand-alone NamingActor with its own 2 s tick and H=3 s / T=4 s, observed every 250 ms; oracle from RECORDED call/ack times with ambiguity bands; plus a real node over HTTP (both tiers) and a real 3-node cluster with owner kill (thorough)",
    note="bounded-progress restatement (bounds in the evidence); default 15 s/30 s constants not run; observations inside the slack bands ignored; late findings of runs with scheduling lag > 400 ms dropped and counted",
